@@ -1,6 +1,7 @@
 """C10 — score laws and the candidate / window pre-filter (structural clauses)."""
+import re
 from ..rules import typestate, effbs, blocksize, data, guard as G, vis, summary, features, beliefs
-from ..sym import Sym, strip, show, is_param, const_value
+from ..sym import canon,  Sym, strip, show, is_param, const_value
 from ..mir import callee_of
 
 EXPL = ("Decides: far -> 0 / false on all four dispatchers; the candidate test and the scorer look at the same (k_self,k_other) pairs "
@@ -37,6 +38,19 @@ def short_inputs(ctx, prog):
                 loops = [b for b in reach if any(s["s"] == "assign" and s["rv"]["r"] == "bin" and s["rv"]["op"] in ("Shl", "BitAnd") for s in f.blocks[b]["stmts"])]
                 found = found or (bool(rets) and not loops)
     ctx.ob("SA-GUARD", "has_common_substring_internal returns false without scanning when either length < MIN_LCS_FOR_COMPARISON (7)", found, why, f.loc())
+    # ... and exactly then: both lengths are compared with the window size by `<` (a `<=` would refuse strings of exactly one window)
+    tests = []
+    for i, j, s in f.stmts():
+        if s["s"] == "assign" and s["rv"]["r"] == "bin" and s["rv"]["op"] in ("Lt", "Le", "Gt", "Ge"):
+            if i in features.debug_regions(f) or any(m in ("debug_assert", "invariant") for m in s["sp"].get("macros", [])):
+                continue   # debug-only beliefs are read by SA-BELIEF
+            a, b = strip(sy.operand(s["rv"]["a"])), strip(sy.operand(s["rv"]["b"]))
+            ca, cb = canon(a), canon(b)
+            for x, cx, y, op in ((a, ca, b, s["rv"]["op"]), (b, cb, a, {"Lt": "Gt", "Le": "Ge", "Gt": "Lt", "Ge": "Le"}[s["rv"]["op"]])):
+                if re.search(r"::len(::<[^()]*>)?\(", cx) and x[0] in ("call", "cast") and const_value(y) == 7:
+                    tests.append((op, cx[-60:]))
+    ok2 = len(tests) == 2 and all(t[0] == "Lt" for t in tests)
+    ctx.ob("SA-GUARD", "has_common_substring_internal: both length tests against the window size are `len < 7`", ok2, "tests: %s" % tests, f.loc())
 
 
 def run(ctx):
